@@ -38,6 +38,9 @@ pub struct BCfg {
     pub panic_drop: bool,
     /// the poisoned-list scenario of family D with this family's stop operation (see fam_d::execute_poison)
     pub poison: Option<bool>,
+    /// the parked reducer is released only this long (ms) after the stop operation was invoked, with the
+    /// queue full: close() itself has to wait that long for room; afterwards the backlog needs milliseconds
+    pub late_open_ms: u64,
 }
 
 pub fn gen(rng: &mut Rng, tiny: bool, focus: &str) -> BCfg {
@@ -94,6 +97,7 @@ pub fn gen(rng: &mut Rng, tiny: bool, focus: &str) -> BCfg {
         iter: focus == "C14" || rng.chance(1, 5),
         panic_drop: how == STOP_DROP && rng.chance(1, 3),
         poison: if rng.chance(1, 25) { Some(rng.chance(2, 3)) } else { None },
+        late_open_ms: if gated && policy == POL_BLOCK && !tiny && !cfg!(miri) && total >= cap + 1 && (rng.chance(1, if focus == "C13" || focus == "C15" { 100 } else { 300 }) || std::env::var("RSV_FORCE").as_deref() == Ok("late_open")) { 3400 } else { 0 },
     }
 }
 
@@ -117,6 +121,7 @@ pub fn describe(c: &BCfg) -> J {
         ("long_stall_ms", J::U(c.long_stall_ms)),
         ("iterator_consumer", J::B(c.iter)),
         ("dropped_by_panicking_owner", J::B(c.panic_drop)),
+        ("reducer_released_ms_after_stop_invoked_with_full_queue", J::U(c.late_open_ms)),
         ("on_unsubscribe_panics_inside_unsubscribe_then_stop", c.poison.map(|ch| J::s(if ch { "with a parked channeled subscriber holding a backlog" } else { "direct subscribers only" })).unwrap_or(J::Null)),
     ])
 }
@@ -207,6 +212,9 @@ pub fn execute(c: &BCfg, seed: u64) -> W {
                 wait_until(|| count_kind(w, K::StopInv, c.how) + count_kind(w, K::StopInv, STOP_CLOSE) >= 1);
                 w.ctx.perturb();
                 w.ctx.perturb();
+                if c.late_open_ms > 0 {
+                    std::thread::sleep(std::time::Duration::from_millis(c.late_open_ms));
+                }
                 w.ctx.gates[0].open();
                 w.mark(MARK_GATE_OPENED_MS, t_start.elapsed().as_millis() as u64);
             }).unwrap();
@@ -217,7 +225,7 @@ pub fn execute(c: &BCfg, seed: u64) -> W {
             // with a parked reducer only `cap`+1 dispatches can ever return before the gate opens
             let fire = if c.gated { fire.min(c.cap as u64) } else { fire };
             wait_until(|| returned.load(Ordering::Relaxed) >= fire);
-            if c.long_stall_ms > 0 {
+            if c.long_stall_ms > 0 || c.late_open_ms > 0 {
                 // queue full, further callers blocked in send, reducer parked: nothing may time out
                 wait_until(|| returned.load(Ordering::Relaxed) >= ((c.n_prod * c.max_actions) as u64).min(c.cap as u64 + 1));
                 std::thread::sleep(std::time::Duration::from_millis(c.long_stall_ms));
@@ -453,7 +461,12 @@ pub fn c04(h: &Hist, s: u8, v: &mut Verdicts, prop: &'static str) {
 
 pub fn run(seed: u64, tiny: bool, focus: &str) -> Outcome {
     let mut rng = Rng::new(seed);
-    let c = gen(&mut rng, tiny, focus);
+    let mut c = gen(&mut rng, tiny, focus);
+    if c.late_open_ms > 0 {
+        // the wait for room must happen inside the stop operation itself
+        c.close_first = false;
+        c.panic_drop = false;
+    }
     let w = execute(&c, seed);
     let h = Hist::from_world(&w);
     let mut v = Verdicts::default();
@@ -464,7 +477,33 @@ pub fn run(seed: u64, tiny: bool, focus: &str) -> Outcome {
     // every call of the scenario returned (it completed) and no stop() was left to its timeout with
     // the loop still running (the controller would have parked): C13 on stop-race programs
     v.evaluated.insert("C13");
-    if let Some(msg) = gave_up_without_cause(&h, &c) {
+    // late release: close() had to wait late_open_ms for room in the full queue; what was left then needs
+    // milliseconds, so the stop returns after the loop has ended unless its own join timeout (a further
+    // 3 s) ran out as well
+    let mut late_msg = None;
+    if c.late_open_ms > 0 && c.poison.is_none() {
+        if let Some(sr) = first_stop(&h, 0) {
+            let settled = settled_stop_ret(&h, 0);
+            let released = h.evs.iter().find(|e| e.k == K::SUnsub && e.idx == 0).map(|e| e.seq);
+            if sr.ret != INF && sr.ms >= c.late_open_ms && sr.ms < c.late_open_ms + 2500 && released.map(|r| r > settled).unwrap_or(true) {
+                late_msg = Some(format!(
+                    "store 0: the reducer was parked until {} ms after the stop operation was invoked (queue full, so close() waited for room); the call returned after {} ms with the backlog still unprocessed ({}), although the remaining work needed no waiting and the join had not used up its own time",
+                    c.late_open_ms,
+                    sr.ms,
+                    match released {
+                        Some(r) => format!("subscribers released at seq {}, call returned at seq {}", r, settled),
+                        None => "subscribers never released".to_string(),
+                    }
+                ));
+            }
+        }
+    }
+    if let Some(msg) = late_msg {
+        if first_stop(&h, 0).map(|sr| sr.how == STOP_DROP).unwrap_or(false) {
+            v.fail("C15", msg.clone());
+        }
+        v.fail("C13", msg);
+    } else if let Some(msg) = gave_up_without_cause(&h, &c) {
         if first_stop(&h, 0).map(|sr| sr.how == STOP_DROP).unwrap_or(false) {
             v.fail("C15", msg.clone());
         }
